@@ -384,6 +384,7 @@ impl<RW: QueueRW<T>, T> MultiQueue<RW, T> {
 
     pub fn try_recv(&self, reader: &Reader) -> Result<T, (*const AtomicUsize, TryRecvError)> {
         let mut ctail_attempt = reader.load_attempt(Relaxed);
+        vpoint!(R_ATTEMPT);
         let is_single = reader.is_single();
         unsafe {
             loop {
